@@ -274,3 +274,368 @@ Proof.
         change (join_slash ([dot; dot] :: y :: t)) with ([dot; dot] ++ slash :: join_slash (y :: t)) in Hpp.
         cbn in Hpp. discriminate.
 Qed.
+
+Lemma normal_path_app_inv : forall a b,
+  normal_path (a ++ slash :: b) = normal_path a && normal_path b.
+Proof. intros a b. unfold normal_path. rewrite comps_app, forallb_app. reflexivity. Qed.
+
+Lemma normal_no_trailing_slash : forall name, normal_path name = true -> suffixb [slash] name = false.
+Proof.
+  intros name Hn. unfold suffixb. cbn [rev app]. rewrite is_rooted_prefixb.
+  destruct (rev name) as [|c t] eqn:E; [reflexivity|]. cbn [is_rooted].
+  destruct (c =? slash) eqn:Ec; [|reflexivity]. apply N.eqb_eq in Ec. subst c.
+  assert (En : name = rev t ++ slash :: []).
+  { rewrite <- (rev_involutive name), E. reflexivity. }
+  rewrite En, normal_path_app_inv in Hn. apply andb_true_iff in Hn as [_ Hn]. discriminate.
+Qed.
+
+Lemma normal_no_dotdot_prefix : forall name, normal_path name = true ->
+  prefixb [dot; dot; slash] name = false.
+Proof.
+  intros name Hn. destruct (prefixb [dot; dot; slash] name) eqn:E; [|reflexivity].
+  apply prefixb_spec in E as [t Ht]. subst name.
+  change ([dot; dot; slash] ++ t) with ([dot; dot] ++ slash :: t) in Hn.
+  rewrite normal_path_app_inv in Hn. apply andb_true_iff in Hn as [Hn _]. discriminate.
+Qed.
+
+(* the repaired check accepts exactly the ordinary relative paths *)
+Theorem accepts_normal : forall name, local_accepts name = normal_path name.
+Proof.
+  intro name. destruct (normal_path name) eqn:Hn.
+  - unfold local_accepts, local_accepts_prefix.
+    rewrite (clean_normal _ Hn), str_eqb_refl, is_rooted_prefixb, (normal_not_rooted _ Hn),
+      (normal_no_trailing_slash _ Hn), (normal_no_dotdot_prefix _ Hn). cbn [negb andb].
+    destruct (is_dot name) eqn:Ed.
+    { apply str_eqb_eq in Ed. subst. discriminate. }
+    destruct (is_dotdot name) eqn:Edd.
+    { apply str_eqb_eq in Edd. subst. discriminate. }
+    reflexivity.
+  - destruct (local_accepts name) eqn:Ha; [|reflexivity]. exfalso.
+    unfold local_accepts in Ha. apply andb_true_iff in Ha as [Ha Hdd]. apply andb_true_iff in Ha as [Ha Hd].
+    destruct (prefix_check_shape _ Ha) as [E | [E | E]].
+    + subst. discriminate.
+    + subst. discriminate.
+    + rewrite E in Hn. discriminate.
+Qed.
+
+(* ------------------------------------------------------------------ paths of one entry *)
+
+Lemma data_normal : normal_path data_name = true.
+Proof. reflexivity. Qed.
+
+Lemma data_noslash : nochar slash data_name.
+Proof. intro H. cbn in H. repeat (destruct H as [H | H]; [discriminate|]). exact H. Qed.
+
+Lemma local_rel_normal : forall name, normal_path name = true ->
+  local_rel name = name ++ slash :: data_name /\ normal_path (local_rel name) = true.
+Proof.
+  intros name Hn. assert (Hnp : normal_path (name ++ slash :: data_name) = true).
+  { rewrite normal_path_app_inv, Hn, data_normal. reflexivity. }
+  unfold local_rel. rewrite join_two_nonnil; [|exact (normal_path_nonnil _ Hn)|discriminate].
+  rewrite (clean_normal _ Hnp). split; [reflexivity|exact Hnp].
+Qed.
+
+Theorem entry_path_exact : forall dir name, normal_path name = true ->
+  entry_path dir name = under (clean dir) (name ++ slash :: data_name).
+Proof.
+  intros dir name Hn. destruct (local_rel_normal _ Hn) as [Hr Hrn].
+  unfold entry_path, path_of. rewrite join2_under by exact Hrn. rewrite Hr. reflexivity.
+Qed.
+
+Theorem entry_dir_exact : forall dir name, normal_path name = true ->
+  entry_dir dir name = under (clean dir) name.
+Proof.
+  intros dir name Hn. unfold entry_dir. rewrite entry_path_exact by exact Hn.
+  rewrite under_app, dir_of_app.
+  - apply clean_under. exact Hn.
+  - apply under_nonnil. exact (normal_path_nonnil _ Hn).
+  - exact data_noslash.
+Qed.
+
+Lemma under_under : forall C a b, C <> [] -> a <> [] -> a <> [dot] -> a <> [slash] ->
+  under (under C a) b = under C (a ++ slash :: b).
+Proof.
+  intros C a b HC Ha Hd Hs. unfold under at 2 3.
+  destruct (str_eqb C [dot]) eqn:E1.
+  - unfold under. rewrite (str_eqb_false _ _ Hd), (str_eqb_false _ _ Hs). reflexivity.
+  - destruct (str_eqb C [slash]) eqn:E2.
+    + unfold under. rewrite str_eqb_false by (intro H; inversion H).
+      rewrite str_eqb_false by (intro H; inversion H; contradiction). reflexivity.
+    + destruct C as [|c C']; [contradiction|]. unfold under.
+      rewrite str_eqb_false by (intro H; inversion H as [[H1 H2]]; destruct C'; discriminate).
+      rewrite str_eqb_false by (intro H; inversion H as [[H1 H2]]; destruct C'; discriminate).
+      rewrite <- app_assoc. reflexivity.
+Qed.
+
+Lemma normal_not_dot_slash : forall a, normal_path a = true -> a <> [] /\ a <> [dot] /\ a <> [slash].
+Proof.
+  intros a H. repeat split; intro E; subst; discriminate.
+Qed.
+
+Theorem md_path_exact : forall dir name suffix,
+  normal_path name = true -> normal_path suffix = true ->
+  md_path dir name suffix = under (clean dir) (name ++ slash :: suffix).
+Proof.
+  intros dir name suffix Hn Hs. unfold md_path, md_path_of.
+  fold (entry_dir dir name). rewrite entry_dir_exact by exact Hn.
+  assert (Hc : clean (under (clean dir) name) = under (clean dir) name) by (apply clean_under; exact Hn).
+  rewrite <- Hc at 1. rewrite join2_under by exact Hs. rewrite clean_idem, Hc.
+  destruct (normal_not_dot_slash _ Hn) as [H1 [H2 H3]].
+  apply under_under; try assumption. apply clean_nonnil.
+Qed.
+
+(* every path of the entry: data file, its directory, every sidecar — for every state directory
+   (so also the target paths of Move) *)
+Theorem contained : forall dir name, local_accepts name = true ->
+  inside (clean dir) (entry_path dir name) = true /\
+  inside (clean dir) (entry_dir dir name) = true /\
+  forall suffix, normal_path suffix = true ->
+    inside (clean dir) (md_path dir name suffix) = true /\
+    inside (entry_dir dir name) (md_path dir name suffix) = true.
+Proof.
+  intros dir name Ha. rewrite accepts_normal in Ha.
+  split; [|split].
+  - rewrite entry_path_exact by exact Ha. apply inside_under.
+    rewrite normal_path_app_inv, Ha, data_normal. reflexivity.
+  - rewrite entry_dir_exact by exact Ha. apply inside_under. exact Ha.
+  - intros suffix Hs. split.
+    + rewrite md_path_exact by assumption. apply inside_under.
+      rewrite normal_path_app_inv, Ha, Hs. reflexivity.
+    + unfold md_path, md_path_of. fold (entry_dir dir name).
+      assert (Hc : clean (entry_dir dir name) = entry_dir dir name).
+      { rewrite entry_dir_exact by exact Ha. apply clean_under. exact Ha. }
+      rewrite join2_under by exact Hs. rewrite <- Hc at 1. apply inside_under. exact Hs.
+Qed.
+
+(* distinct accepted names never share a file *)
+Theorem no_alias : forall dir n1 n2, local_accepts n1 = true -> local_accepts n2 = true ->
+  entry_path dir n1 = entry_path dir n2 -> n1 = n2.
+Proof.
+  intros dir n1 n2 H1 H2 E. rewrite accepts_normal in H1, H2.
+  rewrite !entry_path_exact in E by assumption. apply under_inj in E.
+  apply (f_equal (@rev N)) in E. rewrite !rev_app_distr in E. cbn [rev] in E.
+  rewrite <- !app_assoc in E. apply app_inv_head in E. cbn in E. inversion E as [E'].
+  rewrite <- (rev_involutive n1), <- (rev_involutive n2), E'. reflexivity.
+Qed.
+
+(* rejected: everything that is not an ordinary relative path yields ErrInvalidName *)
+Theorem rejected_error : forall dir name, normal_path name = false -> local_create dir name = None.
+Proof. intros dir name H. unfold local_create. rewrite accepts_normal, H. reflexivity. Qed.
+
+Theorem create_spec : forall dir name,
+  (local_create dir name = None /\ local_accepts name = false) \/
+  (exists p, local_create dir name = Some p /\ local_accepts name = true /\ inside (clean dir) p = true).
+Proof.
+  intros dir name. unfold local_create. destruct (local_accepts name) eqn:Ha.
+  - right. eexists. split; [reflexivity|]. split; [reflexivity|]. apply (contained dir name Ha).
+  - left. split; reflexivity.
+Qed.
+
+Theorem check_sound : forall dir name, C11_check dir (local_create dir name) = true.
+Proof.
+  intros dir name. destruct (create_spec dir name) as [[E _] | [p [E [_ Hin]]]]; rewrite E; [reflexivity|exact Hin].
+Qed.
+
+(* ------------------------------------------------------------------ percent decoding *)
+
+Lemma hexdigit_ok : forall n, n < 16 -> ishex (hexdigit n) = true /\ unhex (hexdigit n) = n.
+Proof.
+  intros n H.
+  assert (E : n = 0 \/ n = 1 \/ n = 2 \/ n = 3 \/ n = 4 \/ n = 5 \/ n = 6 \/ n = 7 \/ n = 8 \/ n = 9 \/
+              n = 10 \/ n = 11 \/ n = 12 \/ n = 13 \/ n = 14 \/ n = 15) by lia.
+  repeat (destruct E as [E | E]; [subst; split; reflexivity|]). subst; split; reflexivity.
+Qed.
+
+Theorem unescape_escape_all : forall s, forallb is_byte s = true -> unescape (escape_all s) = Some s.
+Proof.
+  induction s as [|c s IH]; intro H; [reflexivity|].
+  cbn [forallb] in H. apply andb_true_iff in H as [Hc Hs]. unfold is_byte in Hc. apply N.ltb_lt in Hc.
+  cbn [escape_all unescape]. change (percent =? percent) with true. cbn iota.
+  assert (H1 : c / 16 < 16) by (apply N.div_lt_upper_bound; lia).
+  assert (H2 : c mod 16 < 16) by (apply N.mod_lt; lia).
+  destruct (hexdigit_ok _ H1) as [Ha Ua]. destruct (hexdigit_ok _ H2) as [Hb Ub].
+  rewrite Ha, Hb. cbn [andb]. rewrite (IH Hs), Ua, Ub.
+  rewrite <- (N.div_mod' c 16). reflexivity.
+Qed.
+
+(* every non-empty byte string is the value ParseParam returns for some parameter a client can send *)
+Theorem parse_param_reach : forall name, name <> [] -> forallb is_byte name = true ->
+  parse_param (escape_all name) = Some name.
+Proof.
+  intros name Hne Hb. unfold parse_param. destruct name as [|c t]; [contradiction|].
+  change (is_nil (escape_all (c :: t))) with false. cbn iota. apply unescape_escape_all. exact Hb.
+Qed.
+
+(* whatever the decoding produced, the store either refuses the name or stays inside its directory *)
+Theorem http_contained : forall raw dir,
+  match http_name raw with
+  | Some name => C11_check dir (local_create dir name) = true
+  | None => True
+  end.
+Proof. intros raw dir. destruct (http_name raw); [apply check_sound|exact I]. Qed.
+
+(* ------------------------------------------------------------------ content-addressed entries *)
+
+Definition plain_char (c : N) : bool := negb (c =? slash) && negb (c =? dot).
+
+Lemma plain_single_normal : forall s, s <> [] -> forallb plain_char s = true -> normal_path s = true.
+Proof.
+  intros s Hne Hp.
+  assert (Hns : nochar slash s).
+  { intro Hin. rewrite forallb_forall in Hp. specialize (Hp _ Hin). unfold plain_char in Hp.
+    change (slash =? slash) with true in Hp. discriminate. }
+  apply normal_path_single; [|exact Hns].
+  unfold is_normal. destruct s as [|c t]; [contradiction|]. cbn [is_nil negb andb].
+  cbn [forallb] in Hp. apply andb_true_iff in Hp as [Hc _]. unfold plain_char in Hc.
+  apply andb_true_iff in Hc as [_ Hd]. apply negb_true_iff in Hd.
+  unfold is_dot, is_dotdot. cbn [str_eqb]. rewrite Hd. reflexivity.
+Qed.
+
+Lemma cas_shards_normal : forall n name, forallb plain_char name = true ->
+  Forall (fun d => normal_path d = true) (cas_shards n name).
+Proof.
+  induction n as [|n IH]; intros name Hp; [constructor|].
+  destruct name as [|a [|b t]]; [constructor|constructor|].
+  cbn [cas_shards]. cbn [forallb] in Hp. apply andb_true_iff in Hp as [Ha Hp]. apply andb_true_iff in Hp as [Hb Hp].
+  constructor; [|apply IH; exact Hp].
+  apply plain_single_normal; [discriminate|]. cbn [forallb]. rewrite Ha, Hb. reflexivity.
+Qed.
+
+Lemma normal_join_slash : forall l, l <> [] -> Forall (fun d => normal_path d = true) l ->
+  normal_path (join_slash l) = true.
+Proof.
+  induction l as [|x l IH]; intros Hne H; [contradiction|]. inversion H as [|? ? Hx Hl]; subst.
+  destruct l as [|y l]; [exact Hx|].
+  change (join_slash (x :: y :: l)) with (x ++ slash :: join_slash (y :: l)).
+  rewrite normal_path_app_inv, Hx. apply IH; [discriminate|exact Hl].
+Qed.
+
+Lemma join_slash_snoc : forall pre d, pre <> [] ->
+  join_slash (pre ++ [d]) = join_slash pre ++ slash :: d.
+Proof. intros pre d H. unfold join_slash. apply join_on_app; [exact H|discriminate]. Qed.
+
+Lemma fold_join_normal : forall ds pre,
+  Forall (fun d => normal_path d = true) ds -> Forall (fun d => normal_path d = true) pre ->
+  fold_left (fun acc d => join [acc; d]) ds (join_slash pre) = join_slash (pre ++ ds).
+Proof.
+  induction ds as [|d ds IH]; intros pre Hds Hpre; [rewrite app_nil_r; reflexivity|].
+  inversion Hds as [|? ? Hd Hds']; subst. cbn [fold_left].
+  assert (Hstep : join [join_slash pre; d] = join_slash (pre ++ [d])).
+  { destruct pre as [|p pre'].
+    - cbn [join_slash join_on app]. rewrite join_nil_l by exact (normal_path_nonnil _ Hd).
+      apply clean_normal. exact Hd.
+    - assert (Hp : normal_path (join_slash (p :: pre')) = true) by (apply normal_join_slash; [discriminate|exact Hpre]).
+      rewrite join_two_nonnil; [|exact (normal_path_nonnil _ Hp)|exact (normal_path_nonnil _ Hd)].
+      rewrite join_slash_snoc by discriminate. apply clean_normal.
+      rewrite normal_path_app_inv, Hp, Hd. reflexivity. }
+  rewrite Hstep. rewrite IH; [|exact Hds'|apply Forall_app; split; [exact Hpre|constructor; [exact Hd|constructor]]].
+  rewrite <- app_assoc. reflexivity.
+Qed.
+
+Lemma join3_normal : forall pre a b,
+  Forall (fun d => normal_path d = true) pre -> normal_path a = true -> normal_path b = true ->
+  join [join_slash pre; a; b] = join_slash (pre ++ [a; b]).
+Proof.
+  intros pre a b Hpre Ha Hb.
+  assert (Hab : normal_path (a ++ slash :: b) = true) by (rewrite normal_path_app_inv, Ha, Hb; reflexivity).
+  pose proof (normal_path_nonnil _ Ha) as Hane. pose proof (normal_path_nonnil _ Hb) as Hbne.
+  destruct pre as [|p pre'].
+  - cbn [join_slash join_on app]. destruct a as [|a0 a']; [contradiction|]. destruct b as [|b0 b']; [contradiction|].
+    unfold join. cbn [filter is_nil negb]. change (join_slash [a0 :: a'; b0 :: b']) with ((a0 :: a') ++ slash :: b0 :: b').
+    apply clean_normal. exact Hab.
+  - assert (Hp : normal_path (join_slash (p :: pre')) = true) by (apply normal_join_slash; [discriminate|exact Hpre]).
+    pose proof (normal_path_nonnil _ Hp) as Hpne.
+    assert (Hall : Forall (fun d => normal_path d = true) ((p :: pre') ++ [a; b])).
+    { apply Forall_app. split; [exact Hpre|]. constructor; [exact Ha|constructor; [exact Hb|constructor]]. }
+    assert (Hres : normal_path (join_slash ((p :: pre') ++ [a; b])) = true) by (apply normal_join_slash; [discriminate|exact Hall]).
+    assert (E : join_slash ((p :: pre') ++ [a; b]) = join_slash [join_slash (p :: pre'); a; b]).
+    { unfold join_slash at 1. rewrite join_on_app by discriminate. reflexivity. }
+    unfold join. destruct (join_slash (p :: pre')) as [|q0 q'] eqn:Eq; [contradiction|].
+    destruct a as [|a0 a']; [contradiction|]. destruct b as [|b0 b']; [contradiction|].
+    cbn [filter is_nil negb]. rewrite <- Eq in *. rewrite <- E. apply clean_normal. exact Hres.
+Qed.
+
+Theorem cas_rel_exact : forall name, cas_name_ok name = true ->
+  cas_rel name = join_slash (cas_shards shard_n name ++ [name; data_name]) /\
+  normal_path (cas_rel name) = true.
+Proof.
+  intros name H. unfold cas_name_ok in H. apply andb_true_iff in H as [Hne Hp].
+  assert (Hne' : name <> []) by (destruct name; [discriminate|discriminate]).
+  fold plain_char in Hp. change (forallb (fun c => negb (c =? slash) && negb (c =? dot)) name) with (forallb plain_char name) in Hp.
+  pose proof (cas_shards_normal shard_n name Hp) as Hsh.
+  pose proof (plain_single_normal _ Hne' Hp) as Hn.
+  unfold cas_rel.
+  pose proof (fold_join_normal (cas_shards shard_n name) [] Hsh (Forall_nil _)) as Hf.
+  cbn [join_slash join_on app] in Hf. rewrite Hf.
+  rewrite join3_normal by (try assumption; exact data_normal).
+  split; [reflexivity|]. apply normal_join_slash.
+  - destruct (cas_shards shard_n name); discriminate.
+  - apply Forall_app. split; [exact Hsh|]. constructor; [exact Hn|constructor; [exact data_normal|constructor]].
+Qed.
+
+Theorem cas_contained : forall dir name, cas_name_ok name = true ->
+  cas_path dir name = under (clean dir) (cas_rel name) /\
+  inside (clean dir) (cas_path dir name) = true.
+Proof.
+  intros dir name H. destruct (cas_rel_exact _ H) as [_ Hn].
+  unfold cas_path, path_of. rewrite join2_under by exact Hn. split; [reflexivity|apply inside_under; exact Hn].
+Qed.
+
+(* ------------------------------------------------------------------ the pinned check is violated *)
+
+Definition s_dir : str := [slash; 115].                      (* "/s" *)
+Definition var_dir : str := [slash; 118; 97; 114; slash; 99; 97; 99; 104; 101; slash; 117].   (* "/var/cache/u" *)
+
+Theorem dotdot_refuted :
+  exists dir name, local_accepts_prefix name = true /\ local_create_prefix dir name = Some (slash :: data_name) /\
+                   inside (clean dir) (entry_path dir name) = false /\
+                   entry_dir dir name = [slash].
+Proof. exists s_dir, [dot; dot]. vm_compute. repeat split; reflexivity. Qed.
+
+(* "." : the entry's directory is the state directory itself (Delete removes the whole store) *)
+Theorem dot_refuted :
+  exists dir name, local_accepts_prefix name = true /\ entry_dir dir name = clean dir /\
+                   inside (clean dir) (entry_dir dir name) = false.
+Proof. exists var_dir, [dot]. vm_compute. repeat split; reflexivity. Qed.
+
+(* ------------------------------------------------------------------ routing: which parameter reaches ParseParam *)
+
+Lemma escape_all_not_canonical : forall name, existsb keep_in_path name = true ->
+  escape_all name <> escape_path name.
+Proof.
+  induction name as [|c t IH]; intro H; [discriminate|].
+  cbn [escape_all escape_path]. cbn [existsb] in H. destruct (keep_in_path c) eqn:Ek.
+  - intro E. inversion E as [[E1 E2]]. rewrite <- E1 in Ek. discriminate.
+  - cbn [orb] in H. intro E. inversion E as [E']. exact (IH H E').
+Qed.
+
+(* a parameter with at least one byte that Go leaves unescaped in paths: the fully escaped form is not
+   the default encoding, chi sees it raw, ParseParam decodes it once *)
+Theorem http_name_reach : forall name, name <> [] -> forallb is_byte name = true ->
+  existsb keep_in_path name = true -> http_name (escape_all name) = Some name.
+Proof.
+  intros name Hne Hb Hk. unfold http_name, route_param.
+  rewrite (unescape_escape_all _ Hb).
+  rewrite (str_eqb_false _ _ (escape_all_not_canonical _ Hk)).
+  apply parse_param_reach; assumption.
+Qed.
+
+(* DESIGN's form: the name as it comes out of the parameter decoding *)
+Theorem contained_raw : forall raw name dir,
+  parse_param raw = Some name -> local_accepts name = true ->
+  inside (clean dir) (entry_path dir name) = true /\
+  forall suffix, normal_path suffix = true -> inside (clean dir) (md_path dir name suffix) = true.
+Proof.
+  intros raw name dir _ Ha. destruct (contained dir name Ha) as [H1 [_ H3]].
+  split; [exact H1|]. intros suffix Hs. apply (H3 suffix Hs).
+Qed.
+
+Theorem paths_exact : forall dir name suffix, local_accepts name = true -> normal_path suffix = true ->
+  entry_path dir name = under (clean dir) (name ++ slash :: data_name) /\
+  entry_dir dir name = under (clean dir) name /\
+  md_path dir name suffix = under (clean dir) (name ++ slash :: suffix).
+Proof.
+  intros dir name suffix Ha Hs. rewrite accepts_normal in Ha.
+  split; [apply entry_path_exact; exact Ha|]. split; [apply entry_dir_exact; exact Ha|].
+  apply md_path_exact; assumption.
+Qed.
